@@ -223,6 +223,7 @@ class FunctionContract:
     timeout_ms: int = 20000
     tier: str = "P"
     z3_first_ms: int | None = None  # string-heavy contracts: give z3 only this long, then cvc5 --strings-exp decides
+    replay_hints: list = field(default_factory=list)  # concrete argument dicts tried on the real function when the solver's own model does not fail there
     step: Callable | None = None  # () -> loopstep.Step: verify this synthetic step function (a loop body of `qualname`) instead of the whole function
     label: str = ""
 
@@ -507,6 +508,18 @@ def _elem(c, I, name, r, m, be, t1, sym, a, p, post, replay, raised=None, exc_ex
         conc = {k: c.params[k].concrete(m, sym[k], ctx) for k in c.params}
         e.model_args = {k: _short(v) for k, v in conc.items()}
         failed, text = replay_concrete(c, conc, post, raised)
+        if not failed and post is not None and raised is None:
+            # the model is one member of the counterexample set; uninterpreted symbols (NFC, regex groups...) may
+            # behave differently for real. Try the contract's concrete hints: a hint that breaks the run-time
+            # contract on the real function is a real failing input.
+            for hint in c.replay_hints:
+                try:
+                    f2, t2 = replay_concrete(c, dict(hint), post, None)
+                except Exception:  # noqa: BLE001
+                    continue
+                if f2:
+                    failed, text, e.model_args = True, t2 + " (concrete hint; the solver's own model " + text[:120] + ")", {k: _short(v) for k, v in hint.items()}
+                    break
         e.replay_failed, e.replay_text = failed, text
     except Exception as ex:  # noqa: BLE001
         e.replay_failed, e.replay_text = None, f"could not concretise/replay the model: {type(ex).__name__}: {ex}"
